@@ -746,7 +746,7 @@ class MaterialIndexer(Indexer):
             self.data = data = SparseArray.from_shape([N_phases, chemicals.size])
             self._data_cache = {}
         else:
-            data, cache = container
+            self.data, self._data_cache = data, cache = container
             data[:] = 0.
         old_chemicals = self._chemicals
         old_index = range(old_chemicals.size)
